@@ -665,6 +665,59 @@ func serverFactsOf(sp *fg.Parsed) (facts, error) {
 	}
 	f["portFileSavedBeforeSetup"] = save < setup && hasReturn(fd.Body.List[save])
 	f["hostportsOpenedBeforeSave"] = open < save
+	// the per-pod path takes the ports from parsePorts(pod) and then overwrites every PodName with the request's
+	// pod name (before anything uses it): `req.Ports = parsePorts(pod)` … `req.Ports[i].PodName = req.PodName`
+	parse := topIndex(fd.Body.List, func(c *ast.CallExpr) bool { return callee(c) == "parsePorts" })
+	over := -1
+	for i, st := range fd.Body.List {
+		ast.Inspect(st, func(x ast.Node) bool {
+			as, ok := x.(*ast.AssignStmt)
+			if !ok || len(as.Lhs) != 1 || len(as.Rhs) != 1 {
+				return true
+			}
+			l, ok := as.Lhs[0].(*ast.SelectorExpr)
+			r, ok2 := unparen(as.Rhs[0]).(*ast.SelectorExpr)
+			if ok && ok2 && l.Sel.Name == "PodName" && r.Sel.Name == "PodName" && sp.Src(r.X) == "req" {
+				if _, isIdx := unparen(l.X).(*ast.IndexExpr); isIdx && over < 0 {
+					over = i
+				}
+			}
+			return true
+		})
+	}
+	f["addPathOverwritesPodName"] = parse >= 0 && over > parse && over < open && over < save && over < setup
+	// parsePorts: what goes into Port.PodName — the bare pod name or GetPodFullName(name, namespace)
+	pfd, err := sp.Fn("", "parsePorts")
+	if err != nil {
+		return nil, err
+	}
+	pps := paramNames(pfd)
+	psc := newScope(sp, nil, pfd.Body)
+	nameKnown := false
+	ast.Inspect(pfd.Body, func(x ast.Node) bool {
+		kv, ok := x.(*ast.KeyValueExpr)
+		if !ok || sp.Src(kv.Key) != "PodName" {
+			return true
+		}
+		v := psc.resolve(kv.Value)
+		if sel, ok := v.(*ast.SelectorExpr); ok && len(pps) == 1 && sp.Src(sel.X) == pps[0] && sel.Sel.Name == "Name" {
+			f["parsePortsSetsBarePodName"], nameKnown = true, true
+		}
+		if c, ok := v.(*ast.CallExpr); ok && callee(c) == "GetPodFullName" {
+			f["parsePortsSetsBarePodName"], nameKnown = false, true
+		}
+		return true
+	})
+	if !nameKnown {
+		return nil, fmt.Errorf("%s: parsePorts: cannot tell what goes into Port.PodName", sp.Path)
+	}
+	// the start-up sync: ports from the annotation or parsePorts(pod), host ports re-opened, one full sync
+	ifd, err := sp.Fn("Galaxy", "setupIPtables")
+	if err != nil {
+		return nil, err
+	}
+	f["startupUsesParsePorts"] = containsCall(ifd.Body, "parsePorts") && containsCall(ifd.Body, "SetupPortMappingForAllPods") &&
+		containsCall(ifd.Body, "OpenHostports")
 	// requestFunc: ADD failure runs cleanupPortMapping; DEL runs it after CmdDel succeeded
 	fd, err = sp.Fn("Galaxy", "requestFunc")
 	if err != nil {
